@@ -1,6 +1,7 @@
 package main
 
 import (
+	"regexp"
 	"runtime"
 	"bytes"
 	"context"
@@ -24,10 +25,60 @@ type SolverCfg struct {
 
 var preludeText = prelude()
 
+var markerRe = regexp.MustCompile(`(bvmul|bvudiv|bvurem|bvsdiv|bvsrem|int2bv|bv2nat)@(\d+)`)
+
+// render resolves the operator markers: precisely, or (abstract) as uninterpreted functions of
+// the same signature. The abstraction over-approximates, so unsat under it is unsat precisely.
+func render(text string, abstract bool) string {
+	if !abstract {
+		return markerRe.ReplaceAllStringFunc(text, func(m string) string {
+			sm := markerRe.FindStringSubmatch(m)
+			switch sm[1] {
+			case "int2bv":
+				return "(_ int2bv " + sm[2] + ")"
+			case "bv2nat":
+				return "bv2nat"
+			}
+			return sm[1]
+		})
+	}
+	used := map[string]bool{}
+	out := markerRe.ReplaceAllStringFunc(text, func(m string) string {
+		sm := markerRe.FindStringSubmatch(m)
+		used[sm[1]+"@"+sm[2]] = true
+		return "abs_" + sm[1] + "_" + sm[2]
+	})
+	var decl strings.Builder
+	for k := range used {
+		sm := markerRe.FindStringSubmatch(k)
+		bv := "(_ BitVec " + sm[2] + ")"
+		switch sm[1] {
+		case "int2bv":
+			fmt.Fprintf(&decl, "(declare-fun abs_int2bv_%s (Int) %s)\n", sm[2], bv)
+		case "bv2nat":
+			fmt.Fprintf(&decl, "(declare-fun abs_bv2nat_%s (%s) Int)\n(assert (forall ((x %s)) (! (and (<= 0 (abs_bv2nat_%s x)) (< (abs_bv2nat_%s x) %s)) :pattern ((abs_bv2nat_%s x)))))\n", sm[2], bv, bv, sm[2], sm[2], pow2(atoi(sm[2])).String(), sm[2])
+		default:
+			fmt.Fprintf(&decl, "(declare-fun abs_%s_%s (%s %s) %s)\n", sm[1], sm[2], bv, bv, bv)
+		}
+	}
+	return strings.Replace(out, ";;ABSDECLS\n", decl.String(), 1)
+}
+
+func atoi(s string) int {
+	n := 0
+	fmt.Sscanf(s, "%d", &n)
+	return n
+}
+
+func smtTextMode(inst *Instance, cover, abstract bool) string {
+	return render(smtText(inst, cover), abstract)
+}
+
 func smtText(inst *Instance, cover bool) string {
 	var b strings.Builder
 	b.WriteString("(set-option :produce-models true)\n(set-logic ALL)\n")
 	b.WriteString(preludeText)
+	b.WriteString(";;ABSDECLS\n")
 	for _, d := range inst.Decls {
 		b.WriteString(d)
 		b.WriteString("\n")
@@ -130,8 +181,26 @@ func solveInstance(inst *Instance, cover bool, cfg *SolverCfg, id int) {
 	if inst.Verdict != "" {
 		return
 	}
-	text := smtText(inst, cover)
+	raw := smtText(inst, cover)
+	text := render(raw, false)
 	file := filepath.Join(cfg.TmpDir, fmt.Sprintf("q%06d.smt2", id))
+	if !cover && markerRe.MatchString(raw) {
+		// stage 0: expensive arithmetic operators uninterpreted (sound over-approximation)
+		afile := filepath.Join(cfg.TmpDir, fmt.Sprintf("q%06d.abs.smt2", id))
+		if err := os.WriteFile(afile, []byte(render(raw, true)), 0o644); err == nil {
+			r := runSolver(context.Background(), solvers[0], afile, cfg.Quick)
+			if !cfg.KeepSMT {
+				os.Remove(afile)
+			}
+			if r.verdict == "unsat" {
+				inst.Verdict, inst.Solver, inst.Secs, inst.Output = "unsat", r.solver + "+abs", r.secs, "unsat (mul/div/int2bv uninterpreted)"
+				if cfg.KeepSMT {
+					inst.File = afile
+				}
+				return
+			}
+		}
+	}
 	if err := os.WriteFile(file, []byte(text), 0o644); err != nil {
 		inst.Verdict = "error"
 		inst.Output = err.Error()
@@ -139,6 +208,8 @@ func solveInstance(inst *Instance, cover bool, cfg *SolverCfg, id int) {
 	}
 	if !cfg.KeepSMT {
 		defer os.Remove(file)
+	} else {
+		inst.File = file
 	}
 	total := 0.0
 	if cover {
